@@ -12,8 +12,15 @@
 (*   "pairinfl" the pairs with code % PairStride = 0 whose exposures both keep >= PairMinGood   *)
 (*             good blocks, inflated to blocks of BP real pixels (PairMinGood*BP >= 101 good    *)
 (*             pixels per exposure)                                                             *)
+(*   "stack"   two exposures of NS >= 105 real pixels whose COVERAGE differs: the second is     *)
+(*             displaced by a whole number of pixels (StackOffsets, both signs), either may     *)
+(*             come first in the stack; each has isolated zero-weight pixels chosen among its   *)
+(*             two first and two last pixels, i.e. in the region only it covers; output grids   *)
+(*             span the union of both                                                           *)
+(* The pair variants also hold offsets of several pixels and a shorter second exposure that     *)
+(* covers only part of the first (spec level; a real 2-D stack has rows of equal length).       *)
 EXTENDS Resample, TLC
-CONSTANTS N, NI, B, NP, BP, PairStride, PairMinGood, Families
+CONSTANTS N, NI, B, NP, BP, PairStride, PairMinGood, NS, StackOffsets, StackGrids, Families
 VARIABLES c, exp
 
 (* ---------- patterns ---------- *)
@@ -45,7 +52,14 @@ Grids(n) == <<
 NGrids == 14
 InflGrids == {1, 2, 6, 8, 10, 12}
 PairGrids == {1, 2, 6, 8}
-PairShifts == << Zero, R(1, 2), R(1, 3) >>
+(* second exposure of a pair: offset sh, and cut pixels shorter than the first *)
+PairVariants == << [sh |-> Zero, cut |-> 0], [sh |-> R(1, 2), cut |-> 0], [sh |-> R(1, 3), cut |-> 0],
+                   [sh |-> R(3, 1), cut |-> 0], [sh |-> R(-2, 1), cut |-> 0], [sh |-> One, cut |-> 2] >>
+NVariants == 6
+NInflVariants == 5            \* a real stack has rows of equal length
+(* whole-pixel offsets are applied in blocks: 3 -> 3*(blk \div 4) real pixels *)
+VariantShift(s, blk) == IF s <= 3 \/ blk = 1 THEN PairVariants[s].sh
+                        ELSE Mul(PairVariants[s].sh, OfInt(blk \div 4))
 PairInflGrids == {1, 6}
 
 (* ---------- what the specification demands for a case ---------- *)
@@ -58,7 +72,20 @@ ExpOf(exps, g, iv, ps, st) ==
 NoExp == [mz |-> {}, strict |-> {}, ivx |-> <<>>, kept |-> 0]
 
 PairExps(n, a, b, s, blk) == << [good |-> Inflate(PatOf(n, a), blk), sh |-> Zero],
-                                [good |-> Inflate(PatOf(n, b), blk), sh |-> PairShifts[s]] >>
+                                [good |-> Inflate(PatOf(n - PairVariants[s].cut, b), blk), sh |-> VariantShift(s, blk)] >>
+
+(* stacks with different coverage: bit s of bits set = slot pixel s has zero weight *)
+Slots(n) == << 0, 1, n - 2, n - 1 >>
+StackGood(n, bits) == [k \in 1 .. n |-> ~(\E s \in 1 .. 4 : Slots(n)[s] = k - 1 /\ (bits \div (2 ^ (s - 1))) % 2 = 1)]
+StackExps(a, b, off) ==
+  IF (a + b) % 2 = 0 THEN << [good |-> StackGood(NS, a), sh |-> Zero], [good |-> StackGood(NS, b), sh |-> OfInt(off)] >>
+  ELSE << [good |-> StackGood(NS, b), sh |-> OfInt(off)], [good |-> StackGood(NS, a), sh |-> Zero] >>
+Lo(off) == IF off < 0 THEN off ELSE 0
+Span(off) == NS + Abs(off)
+StackGridsOf(off) == <<
+  Grid(R(2 * Lo(off) - 5, 2), One, Span(off) + 6),              \* half-pixel shifted, wider than the union
+  Grid(R(3 * Lo(off) + 1, 3), One, Span(off)),                   \* shifted by 1/3 over the union
+  Grid(R(Lo(off), 1), R(3, 4), (4 * (Span(off) - 1)) \div 3 + 1) >>   \* step 3/4: on and between the samples
 
 (* ---------- root -> seeds -> cases, so that all workers share the enumeration ---------- *)
 Root == [kind |-> "root"]
@@ -72,9 +99,11 @@ RootStep ==
      \/ /\ "infl" \in Families
         /\ \E g \in InflGrids : \E blk \in Blocks(NI) : c' = [kind |-> "seedI", g |-> g, blk |-> blk]
      \/ /\ "pair" \in Families
-        /\ \E a \in 0 .. (2 ^ NP - 1) : \E s \in 1 .. 3 : c' = [kind |-> "seedP", a |-> a, s |-> s]
+        /\ \E a \in 0 .. (2 ^ NP - 1) : \E s \in 1 .. NVariants : c' = [kind |-> "seedP", a |-> a, s |-> s]
      \/ /\ "pairinfl" \in Families
         /\ \E a \in 0 .. (2 ^ NP - 1) : c' = [kind |-> "seedQ", a |-> a]
+     \/ /\ "stack" \in Families
+        /\ \E a \in 0 .. 15 : \E off \in StackOffsets : c' = [kind |-> "seedT", a |-> a, off |-> off]
   /\ exp' = NoExp
 
 (* good patterns, grid and expectation are bound by \E over singleton sets so that TLC          *)
@@ -106,7 +135,7 @@ PairStep ==
 PairInflStep ==
   /\ c.kind = "seedQ"
   /\ NGood(PatOf(NP, c.a)) >= PairMinGood
-  /\ \E b \in 0 .. (2 ^ NP - 1) : \E s \in 1 .. 3 : \E g \in PairInflGrids :
+  /\ \E b \in 0 .. (2 ^ NP - 1) : \E s \in 1 .. NInflVariants : \E g \in PairInflGrids :
         /\ (c.a * (2 ^ NP) + b) % PairStride = 0
         /\ NGood(PatOf(NP, b)) >= PairMinGood
         /\ \E exps \in {PairExps(NP, c.a, b, s, BP)} : \E grid \in {Grids(NP * BP)[g]} : \E ps \in {Positions(grid)} :
@@ -114,20 +143,30 @@ PairInflStep ==
               /\ c' = [kind |-> "pairinfl", pat |-> c.a, pat2 |-> b, g |-> g, grid |-> grid, exps |-> exps]
               /\ exp' = e
 
+StackStep ==
+  /\ c.kind = "seedT"
+  /\ \E b \in 0 .. 15 : \E g \in StackGrids :
+     \E exps \in {StackExps(c.a, b, c.off)} : \E grid \in {StackGridsOf(c.off)[g]} : \E ps \in {Positions(grid)} :
+     \E st \in {StrictSetP(exps, ps)} : \E e \in {ExpOf(exps, grid, <<>>, ps, st)} :
+        /\ c' = [kind |-> "stack", pat |-> c.a, pat2 |-> b, g |-> g, off |-> c.off, grid |-> grid, exps |-> exps]
+        /\ exp' = e
+
 Init == c = Root /\ exp = NoExp
-Next == RootStep \/ SingleStep \/ InflStep \/ PairStep \/ PairInflStep
+Next == RootStep \/ SingleStep \/ InflStep \/ PairStep \/ PairInflStep \/ StackStep
 
 (* ---------- views of the current case ---------- *)
 IsSingle == c.kind = "single"
 IsInfl == c.kind = "infl"
 IsPair == c.kind = "pair"
 IsPairInfl == c.kind = "pairinfl"
+IsStack == c.kind = "stack"
 CGood == c.exps[1].good
 CGrid == c.grid
 CExps == c.exps
 
 (* ---------- properties of the specification itself ---------- *)
 ASSUME PairMinGood * BP >= 101
+ASSUME NS - 4 >= 101 /\ \A off \in StackOffsets : off # 0 /\ \A g \in StackGrids : GridOK(StackGridsOf(off)[g])
 ASSUME /\ \A g \in 1 .. NGrids : GridOK(Grids(N)[g])
        /\ \A g \in InflGrids : GridOK(Grids(NI * B)[g])
        /\ \A g \in PairGrids : GridOK(Grids(NP)[g])
@@ -146,11 +185,19 @@ C11_InteriorKept == (IsSingle \/ IsPair) => Law_InteriorKept(CGrid, exp.strict)
 C11_Monotone == IsSingle => Law_Monotone(CGood, CGrid, exp.mz)
 C11_InterpBound == IsSingle => (c.iv = IvOf(CGood) /\ Law_InterpBound(c.iv, CGrid, exp.mz))
 C11_MultiIntersection == IsPair => Law_MultiIntersection(CExps, CGrid, exp.mz)
-C11_MultiShrinks == IsPair => Law_MultiShrinks(CExps, CGrid, exp.mz)
+C11_MultiShrinks == (IsPair \/ IsStack) => Law_MultiShrinks(CExps, CGrid, exp.mz)
 (* the dumped expectation is the specification's (guards against an inconsistent MC module) *)
 C11_ExpIsSpec == /\ IsSingle => (exp.mz = MZSet(One1(CGood), CGrid) /\ exp.strict = StrictSet(One1(CGood), CGrid))
                  /\ IsPair => exp.mz = MZSet(CExps, CGrid)
-                 /\ (IsSingle \/ IsInfl \/ IsPair \/ IsPairInfl) => exp.mz \subseteq exp.strict
+                 /\ (IsSingle \/ IsInfl \/ IsPair \/ IsPairInfl \/ IsStack) => exp.mz \subseteq exp.strict
 (* in an inflated pattern no good pixel is isolated, so both readings coincide *)
+(* different coverage: an output pixel in the part only one exposure covers is judged by that   *)
+(* exposure alone, and every output pixel beyond the union must be zero                          *)
+C11_StackCoverage ==
+  IsStack => \A j \in Outs(CGrid) : LET p == Pos(CGrid, j) IN
+     /\ (\A e \in DOMAIN CExps : ~InRange(NS, Rel(p, CExps[e].sh))) => j \in exp.mz
+     /\ \A e \in DOMAIN CExps :
+          (\A f \in DOMAIN CExps \ {e} : ~InRange(NS, Rel(p, CExps[f].sh)))
+             => ((j \in exp.mz) = MustBeZero(CExps[e].good, Rel(p, CExps[e].sh)))
 C11_InflNoIsolated == (IsInfl \/ IsPairInfl) => exp.mz = exp.strict
 =============================================================================
